@@ -62,6 +62,24 @@ Theorem C06_ingress_order : forall c,
 Proof. exact (fun c => conj (sorted_ingresses_sorted c) (sorted_ingresses_perm c)). Qed.
 Print Assumptions C06_ingress_order.
 
+(* Gateway API: sortHTTPRoutes / sortTCPRoutes use the same key (creation stamp, then the text
+   namespace/name); the sorted list, and with it the first come, first served conversion of
+   the routes' claims (listener + hostname + path + match, or a TCP listener port), is the
+   same for every order in which the cache lists the routes; the sorted list is strictly
+   sorted (a total order on distinct names: no two routes are left to the input order) and
+   a claim goes to the first route of that order that makes it *)
+Theorem C06_gateway_sort_perm : forall l1 l2 : list groute,
+  Permutation l1 l2 -> NoDup (map gr_full l1) ->
+  sort_routes l1 = sort_routes l2 /\ route_conversion l1 = route_conversion l2 /\
+  StronglySorted (fun a b => groute_ltb a b = true) (sort_routes l1).
+Proof. exact gateway_sort_perm. Qed.
+Print Assumptions C06_gateway_sort_perm.
+
+Theorem C06_gateway_first_claim : forall (l : list groute) (k : string),
+  assoc k (route_conversion l) = assoc k (flat_map gr_claims (sort_routes l)).
+Proof. exact route_first_claim. Qed.
+Print Assumptions C06_gateway_first_claim.
+
 (* ================================================================== *)
 (* 2. readConfigKeys: `range ann` inside `range AnnotationPrefix`       *)
 (* ================================================================== *)
